@@ -11,6 +11,7 @@ import Proofs.C16Refresh
 import Proofs.C16EventsPolicyNew
 import Proofs.C16EventsUpdate
 import Proofs.C16Queue
+import Proofs.C16TokenMeta
 import Proofs.C16
 /-! # C16 — events, refreshes and their propagation to the connection pool and the selection policy
 
@@ -1237,5 +1238,72 @@ theorem C16_cex_event_buffer_reuse_clobbers_batch :
     (qrunWith true goGrow {} as).handled = [(0, [.status .down 2]), (1, [.status .down 2])] ∧
     (qrunWith true goGrow {} as).handled ≠ (srun {} as).handled := by
   decide
+
+/-! ### the token-aware policy's metadata (token ring + per-keyspace replica tables) follows the policy's host list
+(Model/TokenMeta.lean; helper lemmas in Proofs/C16TokenMeta.lean) -/
+
+open TokenMeta in
+/-- `C16_token_meta_follows_policy`. For EVERY sequence of operations on the selection policy — AddHost, RemoveHost,
+HostUp, HostDown, SetPartitioner, KeyspaceChanged, in any order, for any hosts, any keyspaces (known or not), i.e. in
+particular those every history of refreshes, node events, connects and removals performs — the token ring of the
+token-aware policy holds exactly the hosts of its host list, EVERY replica table (session keyspace and the others) is
+the one computed from that list, and hence every host the metadata refers to (= every host a routed query can be
+offered as a replica) is an entry of the policy's host list: a vanished node is gone from the replica tables as soon as
+it is gone from the list. -/
+theorem C16_token_meta_follows_policy (env : Env) (te : TEnv) (ops : List PolOp) :
+    let s := prun env te {} ops
+    (∀ l, s.tm.tring = some l → l = s.p.ta) ∧ (s.tm.part = true → s.tm.tring = some s.p.ta) ∧
+    (∀ e ∈ s.tm.repl, e.2 = replicaHosts te s.p.ta) ∧ (∀ x ∈ s.tm.refs, x ∈ s.p.ta) := by
+  intro s
+  have h := (C16TokenMeta.pinv_run env te ops {} ⟨C16TokenMeta.tinv_init te⟩).tinv
+  exact ⟨h.ring, h.haspart, fun e he => (h.repl e he).2, C16TokenMeta.refs_subset te _ _ h⟩
+
+open TokenMeta in
+/-- `C16_routed_oracle_ok` (the oracle `evrouted`): for every history of the session's view (events, refreshes, connects,
+removals, in-place address updates) and every metadata that follows the view's token-aware list — as it does after
+every sequence of policy operations (`C16_token_meta_follows_policy`) and along the driver's `follow` steps —, every
+host the metadata refers to is the ring's CURRENT object of its host id: no routed query is offered a host the
+session does not know. -/
+theorem C16_routed_oracle_ok (env : Env) (hloc : LocStable env) (ops : List VOp) (te : TEnv) (tm : TMeta)
+    (h : C16TokenMeta.TInv te tm (runV env View.empty ops).pol.ta) :
+    tm.strayRefs (runV env View.empty ops).ring.allHosts = [] := by
+  have hag := C16_view_invariant env hloc ops
+  unfold TMeta.strayRefs
+  rw [List.map_eq_nil_iff, List.filter_eq_nil_iff]
+  intro x hx
+  have hta := C16TokenMeta.refs_subset te tm _ h x hx
+  have hall : x ∈ (runV env View.empty ops).pol.all := by
+    unfold Policy.all
+    exact List.mem_append_left _ (List.mem_append_left _ hta)
+  have hl := hag.pol x hall
+  have hm : (x.id, x) ∈ (runV env View.empty ops).ring.byId := lookup_some_mem _ _ _ hl
+  have : x ∈ (runV env View.empty ops).ring.allHosts := List.mem_map.mpr ⟨(x.id, x), hm, rfl⟩
+  simp [this]
+
+open TokenMeta in
+/-- the driver's step: when the view's token-aware list changes the metadata is recomputed for the new list -/
+theorem C16_token_meta_follow (te : TEnv) (tm : TMeta) (ta ta' : List RHost) (h : C16TokenMeta.TInv te tm ta) :
+    C16TokenMeta.TInv te (tm.follow te ta ta') ta' := C16TokenMeta.tinv_follow te tm ta ta' h
+
+/-- non-vacuity: two hosts, partitioner, the session keyspace 1 and keyspace 2 known; host 1 vanishes — ring and both
+tables refer to host 2 only -/
+example :
+    let env : Env := ⟨fun _ => false, fun _ => true, true, false, false⟩
+    let te : TokenMeta.TEnv := ⟨1, fun k => k == 1 || k == 2, fun _ => true⟩
+    let h1 : RHost := ⟨1, 1, 7, 7⟩
+    let h2 : RHost := ⟨2, 2, 8, 8⟩
+    let s := TokenMeta.prun env te {} [.add h1, .add h2, .setPartitioner, .keyspaceChanged 2, .keyspaceChanged 3, .remove h1]
+    s.tm.tring = some [h2] ∧ s.tm.repl = [(2, [h2]), (1, [h2])] ∧ s.tm.strayRefs [h2] = [] := by decide
+
+/-- `C16_cex_replicas_before_ring` (kernel-checked): the variant of RemoveHost that recomputes the replica tables BEFORE it
+rebuilds the token ring violates the theorem on that history: the table of the session keyspace still refers to the
+vanished host 1 -/
+theorem C16_cex_replicas_before_ring :
+    let env : Env := ⟨fun _ => false, fun _ => true, true, false, false⟩
+    let te : TokenMeta.TEnv := ⟨1, fun k => k == 1 || k == 2, fun _ => true⟩
+    let h1 : RHost := ⟨1, 1, 7, 7⟩
+    let h2 : RHost := ⟨2, 2, 8, 8⟩
+    let s := [TokenMeta.PolOp.add h1, .add h2, .setPartitioner, .remove h1].foldl (TokenMeta.pstepWith true env te) {}
+    s.p.ta = [h2] ∧ s.tm.strayRefs [h2] = [1] := by decide
 
 end C16
